@@ -166,11 +166,44 @@ Proof.
   rewrite Hex. reflexivity.
 Qed.
 
+(* nested sealing: a record that already carries a sealed tail [vt] and has exactly the fields listed by
+   ANOTHER row-polymorphic record type is sealed (no visible extra field: the new tail holds nothing but
+   [vt]) and unsealed again: the outer tail [vt] is back, untouched, whatever it is. *)
+Theorem nested_tail_preserved :
+  forall cf fs k excl ln lp vfs vt vfs' p,
+    lookup_tyvar k (ltenv ln) = Some p -> p <> lpol ln ->
+    lookup_tyvar k (ltenv lp) = Some (lpol lp) ->
+    (forall x c, In (x, c) fs -> mem x vfs = true) -> extra_of fs vfs = [] ->
+    (forall x c, In (x, c) fs -> mem x vfs' = true) -> extra_of fs vfs' = [] ->
+    (* sealing side *)
+    chk_record cf fs (CTVar k excl) ln (VRec vfs vt)
+      = Ok (VRec (center_of fs ln vfs) (RSeal k (flip ln) [] vt))
+    (* unsealing side, for any record with the listed fields that still carries that tail *)
+    /\ chk_record cf fs (CTVar k excl) lp (VRec vfs' (RSeal k (flip ln) [] vt))
+      = Ok (VRec (center_of fs lp vfs') vt).
+Proof.
+  intros cf fs k excl ln lp vfs vt vfs' p Hn Hp Hpos Hall Hex Hall' Hex'. split.
+  - rewrite (tail_sealed cf fs k excl ln vfs vt p Hn Hp Hall).
+    + rewrite Hex. reflexivity.
+    + rewrite Hex. intros x t [].
+  - rewrite (tail_unsealed cf fs k excl lp vfs' (flip ln) [] vt Hpos Hall' Hex'). reflexivity.
+Qed.
+
 (* end to end: `fun r => r` under `forall r. {fa : Number; r} -> {fa : Number; r}` *)
 Example tail_roundtrip_example :
   run_line cfg_real 40
     (App (Ann (TForall "r" KRow (TArrow (TRec [("fa", TNum)] (TlVar "r")) (TRec [("fa", TNum)] (TlVar "r"))))
               (Lam "x" (Var "x")))
+         (RecLit [("fa", Num 1); ("tb", Num 2)]))
+  = "OK {""fa"":#1,""tb"":#2}".
+Proof. vm_compute. reflexivity. Qed.
+
+Example nested_tail_roundtrip_example :
+  run_line cfg_real 60
+    (App (Ann (TForall "r" KRow (TArrow (TRec [("fa", TNum)] (TlVar "r")) (TRec [("fa", TNum)] (TlVar "r"))))
+              (Lam "x" (App (Ann (TForall "s" KRow (TArrow (TRec [("fa", TDyn)] (TlVar "s")) (TRec [("fa", TDyn)] (TlVar "s"))))
+                                 (Lam "z" (Var "z")))
+                            (Var "x"))))
          (RecLit [("fa", Num 1); ("tb", Num 2)]))
   = "OK {""fa"":#1,""tb"":#2}".
 Proof. vm_compute. reflexivity. Qed.
